@@ -1,17 +1,4 @@
 //! scratch probe (not part of any check)
-use jbonsai::vocoder::Vocoder;
 fn main() {
-    let w = [0.03419000741601805,0.06867138779859486,0.10285970840426936,0.13755138936399675,2.0327317411685946,2.0726743287316767,2.114997924707356,2.1498712953793153,2.1849057936105,2.2208790987253795,2.2576280278499157,2.291957804412935,2.3422162118794727,2.377004446634067,2.4193112299216994,2.4536328655017736,2.4878147594860534,2.5343184776443533,2.635436942605328,2.672948127443543,2.7731405132656075,2.984301575942549];
-    let args: Vec<String> = std::env::args().collect();
-    let stage: usize = args.get(1).map(|s| s.parse().unwrap()).unwrap_or(3);
-    let alpha: f64 = args.get(2).map(|s| s.parse().unwrap()).unwrap_or(0.31);
-    for rate in [44100usize, 48000, 86543, 96000, 192000] {
-        let p = rate / 20;
-        let mut spec = vec![4.320687186173954f64.ln()];
-        spec.extend(&w);
-        let voc = Vocoder::new(w.len() + 1, 0, stage, true, rate, alpha, 0.0, 1.0, p);
-        let st = jbv::pulse::steady_state(voc, &spec, p, 96, 1e-11);
-        let d: Vec<String> = st.diffs.iter().map(|x| format!("{:.2e}", x)).collect();
-        println!("rate {} p {} conv {} frames {} peak {:.3e} growing {}\n  diffs {}", rate, p, st.converged, st.frames_used, st.peak, st.growing(), d.join(" "));
-    }
+    println!("jbv probe: nothing to probe at the moment");
 }
